@@ -41,6 +41,8 @@ def splitFlag (ws : List String) : List String × String :=
   match ws.reverse with
   | "const" :: r => (r.reverse, "const")
   | "opaque" :: r => (r.reverse, "opaque")
+  | "hth" :: r => (r.reverse, "hth")
+  | "tmp" :: r => (r.reverse, "tmp")
   | _ => (ws, "")
 
 def hazName (h : Hazard) : String := ((resStr (.haz h : Res Val)).drop 7).toString
@@ -52,11 +54,15 @@ def memberName : Member → String
 def runMember (m : Member) (recv : Val) (args : List Val) (flag : String) : String :=
   if recv.type.major == .obj && recv.type.level == 0 then "model=unmodelled" else
   let static : Option Nat := if flag == "opaque" then none else acceptMember m recv.type (args.map Val.type) false
-  let spec := if flag == "const" then none else Spec.specMember m recv args
+  let spec := if flag == "const" || flag == "hth" || flag == "tmp" then none else Spec.specMember m recv args
   match static with
   | some code => withSpec ("perr " ++ toString code) spec (KF.memberRegion m recv args)
   | none =>
-    let r := memberCall m recv args (flag == "const")
+    -- receiver kind (MemberExpression::receiver()): variable = storage, literal = constant, `(x + "")` = temporary,
+    -- `(x + null)` = an lvalue handed through
+    let kind : RecvKind := if flag == "const" then .constant else if flag == "hth" then .handedThrough
+      else if flag == "tmp" then .temporary else .storage
+    let r := memberCallK kind m recv args
     -- A hazard outcome names its own region (`C09.<member>.<hazard>`). None is reachable on well-formed values since
     -- the typed-null dereference of the type-mixing branch was repaired (9e8652f; Proofs/C09 `table_methods_no_hazard`);
     -- the ids C09.{put,insert,concat,set}.nullDeref are `fixed` in known_findings.json, so a model that reached such an
@@ -110,7 +116,20 @@ def runTup (args : List Val) (flag : String := "") : String :=
   let spec := Spec.specTup args
   match (if flag == "opaque" then acceptTup (args.map fun _ => Ty.none) else acceptTup (args.map Val.type)) with
   | some code => withSpec ("perr " ++ toString code) spec none
-  | none => withSpec (resStr (biTup (m := Res) (args.map fun v => Res.ok v))) spec (KF.tupRegion args)
+  | none => withSpec (resStr (biTup (m := Res) (args.map fun v => Res.ok v))) spec none
+
+/-- all scripts of length `k` over the given values -/
+def scriptsOf : Nat → List Val → List (List Val)
+  | 0, _ => [[]]
+  | k + 1, vals => (scriptsOf k vals).flatMap fun sc => vals.map fun v => v :: sc
+
+/-- `bi tabseq <nV> <v…>`: `tab(n, e)` with `e` yielding the script; `bi tabrand <nV> <k> <v…>`: the set of outcomes over all
+scripts of length k over the values (the element expression picks one of them at random at every evaluation) -/
+def runTabSeq (n : Val) (vs : List Val) : String := "model=" ++ resStr (biTabScript n vs)
+
+def runTabRand (n : Val) (k : Nat) (vals : List Val) : String :=
+  let outs := (scriptsOf k vals).map fun sc => resStr (biTabScript n sc)
+  "model=" ++ ";;".intercalate (outs.foldl (fun acc o => if acc.contains o then acc else acc ++ [o]) [])
 
 /-! operation sequences on one variable -/
 
@@ -246,6 +265,15 @@ def runLock (tv : Val) (frames : List (Nat × Nat)) (k : Nat) (opName : String) 
   let recvTy := chainTy nchain (tyOf root)
   let locked := recvLocked recv flCall
   let op : Option MemberOp := if opName.startsWith "set@" then some .set else (Member.ofName opName).map MemberOp.m
+  let b := fun (x : Bool) => if x then "1" else "0"
+  if opName == "assign" then
+    -- `<root> = k0;` with k0 of the symbol's own static type: registerSymbol refuses a locked symbol
+    let st := LStmt.assign root
+    let ls := match lockBody (progOf frames k st) fl0 with | none => "refused" | some _ => "accepted"
+    let refused := (lockStmt st flCall).isNone
+    "model=" ++ (if refused then "perr " ++ toString Gen.EXC_PARSE_CONST_VIOLATION_S else "accept")
+      ++ " lr=" ++ b refused ++ " ls=" ++ ls ++ " fl=" ++ b (flCall 0) ++ b (flCall 1) ++ b (flCall 2) ++ b (flCall 3)
+  else
   match op with
   | none => "bad-op"
   | some o =>
@@ -262,7 +290,6 @@ def runLock (tv : Val) (frames : List (Nat × Nat)) (k : Nat) (opName : String) 
     let call := LStmt.call o recv
     let prog : List LStmt := progOf frames k call
     let ls := match lockBody prog fl0 with | none => "refused" | some _ => "accepted"
-    let b := fun (x : Bool) => if x then "1" else "0"
     "model=" ++ (match res with | some c => "perr " ++ toString c | none => "accept")
       ++ " lr=" ++ b (lockRefuses o recv flCall) ++ " ls=" ++ ls
       ++ " fl=" ++ b (flCall 0) ++ b (flCall 1) ++ b (flCall 2) ++ b (flCall 3)
@@ -310,6 +337,14 @@ def handle (words : List String) : Option String :=
       | some recv, some k => some (runItem recv k flag)
       | _, _ => some "bad-op"
     | _ => some "bad-op"
+  | "bi" :: "tabseq" :: nS :: vs =>
+    match parseVal nS, vs.mapM parseVal with
+    | some n, some vals => some (runTabSeq n vals)
+    | _, _ => some "bad-op"
+  | "bi" :: "tabrand" :: nS :: kS :: vs =>
+    match parseVal nS, kS.toNat?, vs.mapM parseVal with
+    | some n, some k, some vals => some (runTabRand n k vals)
+    | _, _, _ => some "bad-op"
   | "bi" :: "tab" :: vs0 =>
     let (vs, flag) := splitFlag vs0
     match vs.mapM parseVal with
